@@ -26,14 +26,17 @@ for f in sorted(glob.glob(V + "/seeded/*/meta.json")):
         cks.append(f"{c['check']}: exit {c['exit']}, {res}{note}")
         if c["exit"] == 1:
             final_caught = True
-    if any(c["exit"] == 0 for c in m.get("checks_run_against_it", [])) and final_caught:
+    own = [c for c in m.get("checks_run_against_it", []) if c["check"] == m["property"]]
+    if own and own[0]["exit"] != 1 and any(c["exit"] == 1 for c in own):
         missed_then.append(sid)
+    elif own and own[0]["exit"] == 1 and "would have" in (own[0].get("note") or "").lower().replace("would have missed", "would have"):
+        missed_then.append(sid + "*")
     det += 1 if final_caught else 0
     ok = m.get("confirmed_by_coordinator", {})
     conf = "yes" if all(ok.get(k) for k in ("demo_fails_with_change", "demo_passes_without_change", "full_suite_passes_with_change")) else "NO"
     rows.append(f"| {sid} | {m['property']} | {m['summary'][:260].replace('|', '/')} | {conf} | {'; '.join(cks).replace('|', '/')} |")
 out.append(f"\n{n} changes kept, {det} detected by the quick tier of the property's own check"
-           + (f" ({', '.join(missed_then)} only after the check was strengthened - see the notes in the last column and section 10.5)" if missed_then else "") + ".\n")
+           + (f" ({', '.join(missed_then)} only after the check was strengthened; * = strengthened after reading what the change needs and before the first run - see the notes in the last column and section 10.5)" if missed_then else "") + ".\n")
 out.append("\n| seed | property | change | confirmed | checks run against it (quick tier) |\n|---|---|---|---|---|\n" + "\n".join(rows) + "\n")
 
 st = V + "/seeded/selftest.json"
